@@ -5,9 +5,11 @@ package c07
 import (
 	"bytes"
 	"context"
+	"encoding/json"
 	"fmt"
 	"math/rand/v2"
 	"os"
+	"path/filepath"
 	"sort"
 	"testing/iotest"
 	"time"
@@ -95,6 +97,7 @@ type env struct {
 	locType      uint32
 	overwrite    bool
 	withBase     bool
+	getterFails  bool
 	el           *eventlog.CryptoAgileLog // set by the CryptoAgileLog.Unmarshal entry when it succeeds
 }
 
@@ -170,8 +173,9 @@ func entries() []*entry {
 			return true, err
 		}},
 		{"extract.Endorsement/eventlog", []string{"eventlog"}, func(e *env) (bool, error) {
+			// without a quote, and with a getter that fails, only the event log can produce the answer
 			_, err := extract.Endorsement(&extract.Options{EventLogLocation: e.w.elPath, UEFIVariableReader: exel.MakeEfiVarFSReader(e.w.efiRoot),
-				Getter: &doubles.Getter{Default: e.w.endBytes}, FirmwareManufacturer: e.manufacturer, Quote: e.w.tdxQuote})
+				Getter: &doubles.Getter{Default: e.w.endBytes, Fail: e.getterFails}, FirmwareManufacturer: e.manufacturer})
 			return true, err
 		}},
 		{"SevPolicy", []string{"endorsement"}, func(e *env) (bool, error) {
@@ -537,16 +541,49 @@ func (w *world) materialize(s spec, r *rand.Rand) (b []byte, gname, class, sname
 	panic("unknown op " + s.op)
 }
 
+type tally struct{ GenuineOK, MutantOK, MutantErr int }
+
 func run(c *core.Ctx) {
 	w := mkWorld()
+	w.fresh = c.SkipTo == 0
 	w.scratch()
 	defer w.cleanup()
 	specs := w.specs(c)
 	ents := entries()
-	type tally struct{ genuineOK, mutantOK, mutantErr int }
+	lim := newASLimiter()
+	if lim.active {
+		c.Note("allocation budget is also enforced as a per-call soft RLIMIT_AS (current size + budget + 512 MiB, hard limit %d MiB)", lim.hard/mib)
+	}
 	tallies := map[string]*tally{}
 	for _, en := range ents {
 		tallies[en.name] = &tally{}
+	}
+	// A worker that is restarted after a process-fatal case continues the floors of its predecessors
+	// (their summaries are lost with them): the three booleans per entry point are kept in the scratch directory.
+	tallyPath := filepath.Join(w.dir, "floors.json")
+	if c.SkipTo > 0 {
+		if b, err := os.ReadFile(tallyPath); err == nil {
+			old := map[string]*tally{}
+			if json.Unmarshal(b, &old) == nil {
+				for n, t := range old {
+					if tallies[n] != nil {
+						*tallies[n] = *t
+					}
+				}
+			}
+		}
+	}
+	saved := ""
+	saveTallies := func() {
+		m := map[string]*tally{}
+		for n, t := range tallies {
+			m[n] = &tally{GenuineOK: min(t.GenuineOK, 1), MutantOK: min(t.MutantOK, 1), MutantErr: min(t.MutantErr, 1)}
+		}
+		if b, err := json.Marshal(m); err == nil && string(b) != saved {
+			if os.WriteFile(tallyPath, b, 0o644) == nil {
+				saved = string(b)
+			}
+		}
 	}
 	c.Count("cases-total", 0)
 	for i, s := range specs {
@@ -583,6 +620,7 @@ func run(c *core.Ctx) {
 		e.manufacturer = []string{"", gceManufacturer}[r.IntN(2)]
 		e.overwrite = r.IntN(3) == 0
 		e.withBase = r.IntN(4) == 0
+		e.getterFails = r.IntN(2) == 0
 		e.masks = nil
 		for k := 0; k < 1+r.IntN(3); k++ {
 			e.masks = append(e.masks, maskPaths[r.IntN(len(maskPaths))])
@@ -592,7 +630,7 @@ func run(c *core.Ctx) {
 			e.locType = w.seeds[s.seed].loc
 		}
 		if genuine { // the genuine calls are the ones that must succeed: fixed friendly parameters
-			e.vmsas, e.ram, e.forceFetch, e.manufacturer, e.overwrite, e.withBase = 4, 16, false, gceManufacturer, false, false
+			e.vmsas, e.ram, e.forceFetch, e.manufacturer, e.overwrite, e.withBase, e.getterFails = 4, 16, false, gceManufacturer, false, false, true
 			e.masks = []string{"timestamp", "sev_snp.measurements[4]", "tdx.measurements"}
 		}
 		c.Count("cases-total", 1)
@@ -620,7 +658,10 @@ func run(c *core.Ctx) {
 			c.Begin(i, gname, en.name, in)
 			var ran bool
 			var err error
-			m := c.Guard(i, en.name, gname, budget(len(b)), func() { ran, err = en.call(e) })
+			bd := budget(len(b))
+			lim.enter(bd.Alloc)
+			m := c.Guard(i, en.name, gname, bd, func() { ran, err = en.call(e) })
+			lim.leave()
 			if m.Panicked {
 				c.Count("panics/"+en.name, 1)
 				continue
@@ -641,11 +682,10 @@ func run(c *core.Ctx) {
 				c.Max("genuine_cpu_us/"+en.name, int64(m.CPU/time.Microsecond))
 				if en.native(kind) {
 					if err == nil {
-						t.genuineOK++
+						t.GenuineOK++
 					} else {
 						c.Note("genuine seed %s rejected by native entry %s: %v", sname, en.name, err)
 					}
-					bd := budget(len(b))
 					if uint64(m.Alloc)*10 > bd.Alloc || m.CPU*10 > bd.CPU {
 						c.Note("headroom: genuine %s in %s used alloc=%d cpu=%v of budget alloc=%d cpu=%v", sname, en.name, m.Alloc, m.CPU, bd.Alloc, bd.CPU)
 					}
@@ -653,9 +693,9 @@ func run(c *core.Ctx) {
 				continue
 			}
 			if err == nil {
-				t.mutantOK++
+				t.MutantOK++
 			} else {
-				t.mutantErr++
+				t.MutantErr++
 			}
 			c.Cell("%s|%s|%s|%s", sname, class, en.name, outcome)
 		}
@@ -663,6 +703,18 @@ func run(c *core.Ctx) {
 			c.Sample(map[string]any{"case": i, "gen": gname, "input_len": len(b), "cross_fed": s.cross})
 		}
 		c.End(i)
+		saveTallies()
+	}
+	if st, err := os.ReadFile("/proc/self/status"); err == nil {
+		for _, l := range bytes.Split(st, []byte("\n")) {
+			var kb int64
+			if n, _ := fmt.Sscanf(string(l), "VmPeak: %d kB", &kb); n == 1 {
+				c.Max("worker_vm_peak_kib", kb)
+			}
+			if n, _ := fmt.Sscanf(string(l), "VmHWM: %d kB", &kb); n == 1 {
+				c.Max("worker_rss_peak_kib", kb)
+			}
+		}
 	}
 	names := make([]string, 0, len(tallies))
 	for n := range tallies {
@@ -671,11 +723,13 @@ func run(c *core.Ctx) {
 	sort.Strings(names)
 	for _, n := range names {
 		t := tallies[n]
-		c.Floor("genuine-accepted/"+n, t.genuineOK > 0)
-		c.Floor("mutant-returned/"+n, t.mutantOK+t.mutantErr > 0)
-		if n != "InspectSignature" && n != "InspectPayload" { // these two cannot fail on a parsed endorsement
-			c.Floor("mutant-rejected/"+n, t.mutantErr > 0)
+		if n != "CryptoAgileLog.Unmarshal/one-byte-reader" { // r.Read is not io.ReadFull in the repository: short reads are refused (C18's subject), so no genuine accept here
+			c.Floor("genuine-accepted/"+n, t.GenuineOK > 0)
 		}
-		c.Count("mutants-accepted/"+n, t.mutantOK)
+		c.Floor("mutant-returned/"+n, t.MutantOK+t.MutantErr > 0)
+		if n != "InspectSignature" && n != "InspectPayload" { // these two cannot fail on a parsed endorsement
+			c.Floor("mutant-rejected/"+n, t.MutantErr > 0)
+		}
+		c.Count("mutants-accepted/"+n, t.MutantOK)
 	}
 }
